@@ -152,6 +152,16 @@ class Const(object):
         return self.v
 
 
+class RFQModel(object):
+    """deterministic RFQ model: every request of at least min_qty units trades at its quoted price"""
+
+    def __init__(self, min_qty=0.0):
+        self.min_qty = min_qty
+
+    def __call__(self, rfqs, target):
+        return rfqs[rfqs["quantity"].abs() >= self.min_qty][["quantity", "price"]]
+
+
 class Probe(object):
     """Calls a harness callback with the target; identity survives deepcopy via registry."""
 
@@ -306,6 +316,8 @@ def mk_algo(bt, a, spec, frames):
         return al
     if name == "ReplayTransactions":
         return A.ReplayTransactions(p["frame"])
+    if name == "SimulateRFQTransactions":
+        return A.SimulateRFQTransactions(p["frame"], RFQModel(p.get("min_qty", 0.0)))
     if name == "UpdateRisk":
         return A.UpdateRisk(p["measure"], history=p.get("history", 0))
     if name == "HedgeRisks":
@@ -423,6 +435,10 @@ def mk_frames(spec):
             frames[name] = df
         elif kind == "dictframes":
             frames[name] = {k: mk_frame(spec["dates"], v) for k, v in f["frames"].items()}
+        elif kind == "blotter":  # rows [stamp, security, quantity, price] in the order given (a blotter need not be sorted by time)
+            rows = f["rows"]
+            mi = pd.MultiIndex.from_arrays([pd.DatetimeIndex([pd.Timestamp(r[0]) for r in rows]), [r[1] for r in rows]], names=["Date", "Security"])
+            frames[name] = pd.DataFrame({"quantity": [float(r[2]) for r in rows], "price": [float(r[3]) for r in rows]}, index=mi)
         else:
             raise ValueError(kind)
     return frames
@@ -435,7 +451,8 @@ def mk_data(spec):
 def mk_additional(spec, frames):
     add = {}
     if spec.get("bidoffer") is not None:
-        add["bidoffer"] = mk_frame(spec["dates"], spec["bidoffer"])
+        # an empty mapping switches bid/offer accounting on without any spread data (what custom-price trades need)
+        add["bidoffer"] = mk_frame(spec["dates"], spec["bidoffer"]) if spec["bidoffer"] else {}
     for k in spec.get("additional", []) or []:
         add[k] = frames[k]
     return add
